@@ -109,10 +109,10 @@ P_ShortSizes(c) ==
 P_Wiped(c) ==
   /\ (Validated(c) => c.post.scr = Clean)
   /\ ((~Validated(c) /\ ~c.grew /\ ~c.allocFailed) => c.post.scr = c.pre.scr)
-\* C07: a successful call yields the hash determined by the request alone, returns the output
-\* field, and leaves errno alone
+\* C07: a successful call yields the hash determined by the request alone and returns the output field
+\* (errno after a successful call is unspecified: e.g. a failed huge-page attempt leaves ENOMEM behind)
 P_Result(c) ==
-  MustSucceed(c) => c.post.out = Hash(c.oc.key) /\ c.ret = ROut /\ c.err1 = c.err0
+  MustSucceed(c) => c.post.out = Hash(c.oc.key) /\ c.ret = ROut
 \* C14: a block that had to grow was erased first, is zero-initialised after
 P_Grow(c) == (c.fn = "crypt_ra" /\ c.grew) => c.erasedFirst
 AllP == {"FailClosed", "NoStale", "Token", "ShortSizes", "Wiped", "Result", "Grow"}
